@@ -64,6 +64,11 @@ var c14Shapes = []string{
 	"permessage-deflate; server_no_context_takeover; server_max_window_bits=10", // unhonourable, asks for server_no_context_takeover
 	"permessage-deflate; server_no_context_takeover; client_max_window_bits",
 	"permessage-deflate; server_max_window_bits=abc", // malformed: not a number
+	// quoted-string values (RFC 7692 5.2: a value may be a token or a quoted string)
+	"permessage-deflate; client_max_window_bits=\"10\"", // well-formed
+	"permessage-deflate; client_max_window_bits=\"",     // malformed: a lone quote
+	"permessage-deflate; client_max_window_bits=\"\"",   // malformed: empty
+	"permessage-deflate; server_max_window_bits=\"15",   // malformed: unterminated
 }
 
 type c14SrvCase struct {
